@@ -231,6 +231,40 @@ func c11SchemaNames(g *genCtx) string {
 	}
 	tok, okTok := named("pkg/oidc/token.go", "AccessTokenResponse")
 	emit("tokenResponseParams", "`schema` names of oidc.AccessTokenResponse", tok, okTok)
+	// what AuthResponseToken hands to the transport code: its anonymous wrapper struct (an embedded
+	// *oidc.AccessTokenResponse contributes that type's names), or the token response itself when there is no wrapper
+	implicit, okImplicit := tok, okTok
+	if fd := g.findFunc("pkg/op/auth_request.go", "AuthResponseToken"); fd != nil {
+		seen := false
+		ast.Inspect(fd.Body, func(n ast.Node) bool {
+			cl, ok := n.(*ast.CompositeLit)
+			if !ok || seen {
+				return true
+			}
+			st, ok := cl.Type.(*ast.StructType)
+			if !ok {
+				return true
+			}
+			seen = true
+			implicit = nil
+			for _, fld := range st.Fields.List {
+				if len(fld.Names) == 0 {
+					switch exprString(fld.Type) {
+					case "*oidc.AccessTokenResponse", "oidc.AccessTokenResponse":
+						implicit = append(implicit, tok...)
+					default:
+						okImplicit = false // an embedded type this reader does not know
+					}
+					continue
+				}
+				implicit = append(implicit, schemaNames(&ast.StructType{Fields: &ast.FieldList{List: []*ast.Field{fld}}})...)
+			}
+			return true
+		})
+	} else {
+		okImplicit = false
+	}
+	emit("implicitResponseParams", "`schema` names of what AuthResponseToken encodes (oidc.AccessTokenResponse and the fields wrapped around it)", implicit, okImplicit)
 	er, okErr := named("pkg/oidc/error.go", "Error")
 	emit("errorResponseParams", "`schema` names of oidc.Error", er, okErr)
 	return b.String()
